@@ -38,6 +38,13 @@ REQDIR = os.path.join(RUNDIR, "requests")
 for _d in (KEYDIR, RUNDIR, REQDIR):
     os.makedirs(_d, exist_ok=True)
 
+
+def reqdir():
+    """request_uri documents of THIS process (flows run in several worker processes)"""
+    d = os.path.join(REQDIR, str(os.getpid()))
+    os.makedirs(d, exist_ok=True)
+    return d
+
 ISS = "https://op.c12.example"
 RP_BASE = "https://rp.c12.example"
 CLIENT_ID = "c12-client"
@@ -168,8 +175,10 @@ def cell_of(**kw):
 class Pair:
     """One provider + one relying party configured for one cell."""
 
-    def __init__(self, cell, clock=None):
+    def __init__(self, cell, clock=None, latency=0):
         self.cell = cell
+        self.latency = latency          # seconds the controlled clock advances while a token response travels
+        self.token_times = []           # (provider clock when the token response was made, RP clock on arrival)
         self.secret = SECRET56 if cell.get("secret_len", 32) == 56 else SECRET32
         self.rp_rts = list(ALL_RTS) if cell.get("rp_all_rts") else [cell["rt"]]
         self.log = []        # (endpoint, status, detail) of every dispatched HTTP exchange
@@ -257,7 +266,7 @@ class Pair:
             "token_endpoint_auth_methods_supported": [c["auth"]],
             "id_token_signing_alg_values_supported": [c["idt_sig"]],
             "scopes_supported": ["openid", "profile", "email", "address", "phone", "offline_access"],
-            "requests_dir": REQDIR,
+            "requests_dir": reqdir(),
         }
         if c["auth"] in ("client_secret_jwt", "private_key_jwt"):
             conf["token_endpoint_auth_signing_alg_values_supported"] = [
@@ -322,7 +331,7 @@ class Pair:
         path = u.path.strip("/")
         if host == RP_BASE:
             # a request_uri document written by the RP into its requests directory
-            fn = os.path.join(REQDIR, os.path.basename(path))
+            fn = os.path.join(reqdir(), os.path.basename(path))
             if path.startswith("requests/") and os.path.isfile(fn):
                 self.log.append(("rp:" + path, 200, ""))
                 return Resp(200, open(fn).read(), "application/jwt", url)
@@ -364,6 +373,11 @@ class Pair:
             if name == "token":
                 self.last_token_response = dict(r["response_args"]) if "response_args" in r else None
             out = ep.do_response(request=pr, **r)
+            if name == "token" and self.clock is not None:
+                t_op = self.clock.now
+                if self.latency:
+                    self.clock.tick(self.latency)
+                self.token_times.append((t_op, self.clock.now))
             ct = dict(out["http_headers"]).get("Content-type", "application/json")
             self.log.append((name, 200, ""))
             if name == "userinfo":
@@ -376,9 +390,10 @@ class Pair:
 
 
 def clean_requests_dir():
-    for f in os.listdir(REQDIR):
+    d = reqdir()
+    for f in os.listdir(d):
         try:
-            os.remove(os.path.join(REQDIR, f))
+            os.remove(os.path.join(d, f))
         except OSError:
             pass
 
@@ -436,13 +451,14 @@ def jose_headers(token):
     return None, None
 
 
-def run_flow(pair, scope, claims=None, extra_args=None, do_refresh=True, do_introspect=True):
+def run_flow(pair, scope, claims=None, extra_args=None, do_refresh=True, do_introspect=True, user=USER):
     """Drive one complete flow. Returns an observation dict; raises FlowFailure(stage, detail) when a step
     does not complete."""
     from idpyoidc.message.oauth2 import is_error_message
     c = pair.cell
     rp, server = pair.rp, pair.server
-    obs = {"cell": c, "stages": []}
+    obs = {"cell": c, "stages": [], "user": user}
+    srv.set_user(server, user)
 
     def stage(name, fn):
         try:
@@ -548,7 +564,13 @@ def run_flow(pair, scope, claims=None, extra_args=None, do_refresh=True, do_intr
         obs["id_token_jws_header"] = dict(getattr(idt, "jws_header", None) or {})
         obs["id_token_jwe_header"] = dict(getattr(idt, "jwe_header", None) or {}) or None
     obs["token_response"] = dict(pair.last_token_response) if pair.last_token_response else None
+    obs["token_times"] = list(pair.token_times)
     obs["userinfo_wire"] = pair.last_userinfo_wire
+    # the ID Token string the relying party ended up with (token response, else authorization response)
+    obs["raw_id_token"] = (obs["token_response"] or {}).get("id_token") or delivered.get("id_token")
+    obs["rp_client_id"] = rp.get_client_id()
+    obs["rp_callbacks"] = (rp.get_context().get_preference("callback_uris") or {}).get("redirect_uris")
+    obs["rp_use"] = dict(getattr(pair, "rp_use", {}))
     obs["rp_state"] = {k: v for k, v in cst.get(st).items()}
 
     # ---- provider side records
